@@ -161,6 +161,10 @@ def build_dict(ctx, res):
 def replay(ctx, res, f):
     """seeded native run of the real function text against the executable form of enc/dec"""
     from vp.core import native_search, NATIVE_RNG
+    global REAL_ROUNDTRIP
+    REAL_ROUNDTRIP = REAL_ROUNDTRIP.replace("NATIVE_RNG_PLACEHOLDER", "") if "NATIVE_RNG_PLACEHOLDER" in REAL_ROUNDTRIP else REAL_ROUNDTRIP
+    if not REAL_ROUNDTRIP.lstrip().startswith("struct Rng"):
+        REAL_ROUNDTRIP = NATIVE_RNG + REAL_ROUNDTRIP
     p, a = ctx.src(P), ctx.src(A)
     def o(src, kind, name, impl=None):
         return src.item(kind, name, impl=impl).orig
@@ -208,4 +212,63 @@ fn main() {
     println!("NONE {}", n);
 }
 '''
-    return native_search(ctx, "codec", "codec", body, args=[ctx.seed])
+    r = native_search(ctx, "codec", "codec", body, args=[ctx.seed])
+    if r.get("found_input"):
+        return r
+    # second program: the REAL parser crate (sessions, dictionaries, serde impls) round-trips tokens through postcard
+    import os
+    crate = os.path.join(ctx.repo, "crates", "parser")
+    if not os.path.isfile(os.path.join(crate, "Cargo.toml")):
+        return r
+    r2 = native_search(ctx, "codec", "codec_real", REAL_ROUNDTRIP, args=[ctx.seed], timeout=1500,
+                       deps={"veryl-parser": '{ path = "%s" }' % crate, "postcard": '{ version = "1", features = ["alloc"] }'})
+    return r2 if r2.get("found_input") else r
+
+
+REAL_ROUNDTRIP = r'''
+use veryl_parser::fragment_codec::{begin_decode, begin_encode, end_decode, end_encode, DecodeSession, EncodeSession, IdRebase, IdWindow};
+use veryl_parser::resource_table;
+use veryl_parser::text_table::{self, TextInfo};
+use veryl_parser::veryl_token::{Token, TokenSource};
+use std::path::Path;
+
+fn main() {
+    let mut g = Rng(vp_seed());
+    vp_hook();
+    let words = ["alpha", "r#inst", "r#proto", "beta_1", "gr\u{fc}n", "x", "r#x", "_", "a.b"];
+    let mut n = 0u64;
+    for round in 0..300u64 {
+        let token_start = resource_table::peek_token_id();
+        let text_start = text_table::peek_text_id();
+        let path = resource_table::insert_path(Path::new(&format!("f{}.veryl", round % 3)));
+        let text = text_table::set_current_text(TextInfo { text: "module A {}".to_string(), path });
+        let source = TokenSource::File { path, text };
+        let k = 1 + g.below(5) as usize;
+        let toks: Vec<Token> = (0..k).map(|i| Token::new(words[g.below(words.len() as u64) as usize], 1 + i as u32, 2, 5, 10 * i as u32, source)).collect();
+        let token_end = resource_table::peek_token_id();
+        let text_end = text_table::peek_text_id();
+        begin_encode(EncodeSession::new(IdWindow { start: token_start, end: token_end }, IdWindow { start: text_start, end: text_end }));
+        let bytes = postcard::to_allocvec(&toks);
+        let dicts = end_encode().unwrap();
+        let Ok(bytes) = bytes else { println!("FOUND {{\"what\":\"in-window tokens refused at capture\"}}"); std::process::exit(1) };
+        // unrelated tokens in between: the restore happens at another id offset
+        for _ in 0..g.below(4) { let _ = Token::new("pad", 0, 0, 1, 0, TokenSource::External); }
+        let tc = token_end - token_start;
+        let token_base = resource_table::reserve_token_ids(tc);
+        let text_base = text_table::reserve_text_ids(text_end - text_start);
+        begin_decode(DecodeSession::new(&dicts.strings, &dicts.paths, IdRebase { base: token_base, count: tc }, IdRebase { base: text_base, count: text_end - text_start }));
+        let back: Result<Vec<Token>, _> = postcard::from_bytes(&bytes);
+        end_decode();
+        let Ok(back) = back else { println!("FOUND {{\"what\":\"stored fragment does not decode\"}}"); std::process::exit(1) };
+        for (a, b) in toks.iter().zip(back.iter()) {
+            n += 1;
+            let (sa, sb) = (resource_table::get_str_value(a.text), resource_table::get_str_value(b.text));
+            if sa != sb || b.id.0 != token_base + (a.id.0 - token_start) || (a.line, a.column, a.length, a.pos) != (b.line, b.column, b.length, b.pos) {
+                println!("FOUND {{\"what\":\"restored token differs\",\"text\":{:?},\"restored_text\":{:?},\"id\":{},\"restored_id\":{},\"expected_id\":{}}}", sa, sb, a.id.0, b.id.0, token_base + (a.id.0 - token_start));
+                std::process::exit(1);
+            }
+        }
+    }
+    println!("NONE {}", n);
+}
+'''
